@@ -5,6 +5,7 @@ kind-stable (no `Never` directly below an optional …) and does not mention `An
 of the known finding `runtime-optional-never-anyresource`.
 -/
 import Verif.Proofs.SubTrans4
+import Verif.Proofs.SubAgree2
 namespace Verif.Proofs.SubTrans
 open Verif.Model.Types Verif.Model.Types.Struct Verif.Model.Auth Verif.Proofs.SubUnfold
 
